@@ -38,3 +38,9 @@ def run(ctx):
         for v in res.violations:
             ctx.violation(f"liveness:{v.name}:{n}", {"program": n, "trace": [h for h, _ in v.trace][-25:]})
     B.run_property(ctx, "C39", INVARIANTS, PROPERTIES, QUICK, THOROUGH, (), check_selection=True, overlap=['chain2', 'alw'])
+    # additional stage: BatchDB's environment assumption ("reports come only from activated instances, about dispatched attempts")
+    # as a checked property of the driver's HTTP API: specs/batchdb/DriverApi.tla (+ DriverApiRef: it implements BatchDB), its state
+    # graph replayed on the real route table of batch.driver.main (decorators, handlers, job.py wrappers, Instance objects)
+    from checks import _driverapi
+
+    _driverapi.run_api_stage(ctx)
